@@ -72,6 +72,13 @@ pub fn extend_be_bytes(data: &mut Vec<u8>, slice: &[Felt])
 { unimplemented!() }
 
 
+// ---- s.iter().map(f).collect::<Vec<_>>() on a slice -----------------------------------------------------------
+#[verifier::external_body]
+pub fn slice_map<T, U, F: Fn(&T) -> U>(s: &[T], f: F) -> (r: Vec<U>)
+    requires forall|i: int| 0 <= i < s@.len() ==> call_requires(f, (&#[trigger] s@[i],)),
+    ensures r@.len() == s@.len(), forall|i: int| 0 <= i < s@.len() ==> call_ensures(f, (&s@[i],), #[trigger] r@[i]),
+{ unimplemented!() }
+
 // ---- v.drain(0..1).collect::<Vec<_>>() -----------------------------------------------------------------------
 /// removes and returns the first element (std: `drain(0..1)` PANICS when the vector is empty, hence the precondition)
 #[verifier::external_body]
